@@ -11,6 +11,7 @@ package store
 
 import (
 	"fmt"
+	"github.com/oklog/ulid/v2"
 	"math"
 	"os"
 	"sort"
@@ -36,6 +37,7 @@ type c15Blk struct {
 
 type c15Case struct {
 	blocks     []c15Blk // in the order they are added
+	removed    []int    // indices of blocks removed again (bucketBlockSet.remove) after all were added: a block set lives through syncs
 	mint, maxt int64
 	maxRes     int64
 }
@@ -59,6 +61,9 @@ func (c c15Case) String() string {
 			sb.WriteByte(' ')
 		}
 		fmt.Fprintf(&sb, "%s[%d,%d)", c15ResName(b.res), b.min, b.max)
+	}
+	if len(c.removed) > 0 {
+		fmt.Fprintf(&sb, " | then removed (by add order) %v", c.removed)
 	}
 	fmt.Fprintf(&sb, " | getFor(%d,%d,maxRes=%d)", c.mint, c.maxt, c.maxRes)
 	return sb.String()
@@ -85,12 +90,40 @@ func c15Check(c c15Case, tolerateDup bool) c15Result {
 		var m metadata.Meta
 		m.MinTime, m.MaxTime = b.min, b.max
 		m.Thanos.Downsample.Resolution = b.res
+		m.ULID[14], m.ULID[15] = byte((i+1)>>8), byte(i+1)
 		bb := &bucketBlock{meta: &m}
 		if err := set.add(bb); err != nil {
 			r.msg = fmt.Sprintf("add(%s[%d,%d)) failed: %v", c15ResName(b.res), b.min, b.max, err)
 			return r
 		}
 		idx[bb] = i
+	}
+	if len(c.removed) > 0 {
+		// drop some blocks again (compacted away, retention); the oracle below only knows the survivors
+		gone := map[int]bool{}
+		for _, i := range c.removed {
+			var id ulid.ULID
+			id[14], id[15] = byte((i+1)>>8), byte(i+1)
+			set.remove(id)
+			gone[i] = true
+		}
+		var live []c15Blk
+		remap := map[int]int{}
+		for i, b := range c.blocks {
+			if !gone[i] {
+				remap[i] = len(live)
+				live = append(live, b)
+			}
+		}
+		for bb, i := range idx {
+			if gone[i] {
+				delete(idx, bb)
+			} else {
+				idx[bb] = remap[i]
+			}
+		}
+		c.blocks = live
+		r.classes = append(r.classes, "after-remove")
 	}
 	got := set.getFor(c.mint, c.maxt, c.maxRes, nil)
 
@@ -320,6 +353,16 @@ func c15Gen(rt *rapid.T) c15Case {
 			}
 			if c.mint > c.maxt {
 				c.mint, c.maxt = c.maxt, c.mint
+			}
+		}
+	}
+	if n >= 2 && rapid.IntRange(0, 2).Draw(rt, "withRemovals") == 0 {
+		seenRm := map[int]bool{}
+		for r, m := 0, rapid.IntRange(1, (n+1)/2).Draw(rt, "removals"); r < m; r++ {
+			x := rapid.IntRange(0, n-1).Draw(rt, "removeIdx")
+			if !seenRm[x] {
+				seenRm[x] = true
+				c.removed = append(c.removed, x)
 			}
 		}
 	}
